@@ -982,11 +982,12 @@ def _serialize_authors(
     category: str,
     id_generator: Iterator[str],
 ) -> tuple[Chunk | Loop, dict[str, str]]:
-    fields = {
-        f'{category}.{key}': f
-        for key in ('name', 'email', 'address', 'orcid_id')
-        if any(f := [getattr(a, key) or '' for a in authors])
-    }
+    fields = {}
+    for key in ('name', 'email', 'address', 'orcid_id'):
+        values = [getattr(a, key) or '' for a in authors]
+        # Always write the names such that a loop has at least one column.
+        if key == 'name' or any(values):
+            fields[f'{category}.{key}'] = values
     # Map between our name (Person.orcid_id) and CIF's (id_orcid)
     if orcid_id := fields.pop(f'{category}.orcid_id', None):
         fields[f'{category}.id_orcid'] = orcid_id
